@@ -521,8 +521,8 @@ func (g *Gen) subset(cols []string, min, max int) []string {
 // constant of a kind compatible with k (mostly), from the scenario's domains
 func (g *Gen) constFor(k Kind) Val {
 	var cands []Val
-	for _, d := range g.sc.dom {
-		for _, v := range d {
+	for _, c := range colPool { // (fixed order: runs with the same seed are identical)
+		for _, v := range g.sc.dom[c] {
 			if kindOf(v)&k != 0 {
 				cands = append(cands, v)
 			}
@@ -667,6 +667,9 @@ func (g *Gen) genVal(cols []string, kinds map[string]Kind, depth int) (*Ex, Kind
 			b = &Ex{K: "const", V: vNum(g.rnd.Intn(4))}
 		}
 		op := []string{"add", "add", "sub", "mul"}[g.rnd.Intn(4)]
+		if op == "mul" && b.K == "col" {
+			op = "add" // keep repeated updates far away from TLC's 32-bit integers
+		}
 		a := &Ex{K: "col", C: c}
 		if g.rnd.Intn(5) == 0 {
 			a, b = b, a
@@ -681,6 +684,27 @@ func (g *Gen) genVal(cols []string, kinds map[string]Kind, depth int) (*Ex, Kind
 	}
 	v := vNum(g.rnd.Intn(3))
 	return &Ex{K: "const", V: v}, kN
+}
+
+// whereOn: a where whose comparisons are on the given columns (a subset of src's)
+func (g *Gen) whereOn(src *Q, cols []string) *Q {
+	kinds := map[string]Kind{}
+	for _, c := range cols {
+		kinds[c] = src.kinds[c]
+	}
+	return &Q{Op: "where", Src: src, E: g.genBool(cols, kinds, 1), cols: src.cols, kinds: src.kinds}
+}
+
+// fixOn: a where that fixes column c to one or two constants (feeds the Fixed machinery:
+// copying of fixed values across joins / intersect / minus, disjoint unions, conflicts)
+func (g *Gen) fixOn(src *Q, c string) *Q {
+	var e *Ex
+	if g.rnd.Intn(3) == 0 {
+		e = &Ex{K: "in", A: &Ex{K: "col", C: c}, Vs: []Val{g.constFor(src.kinds[c]), g.constFor(src.kinds[c])}}
+	} else {
+		e = &Ex{K: "cmp", O: "is", A: &Ex{K: "col", C: c}, B: &Ex{K: "const", V: g.constFor(src.kinds[c])}}
+	}
+	return &Q{Op: "where", Src: src, E: e, cols: src.cols, kinds: src.kinds}
 }
 
 func (g *Gen) where(src *Q) *Q {
@@ -800,12 +824,19 @@ func (g *Gen) summarize(src *Q) *Q {
 		}
 		name := ""
 		out := defaultSumName(op, on)
+		shadow := false
 		if g.rnd.Intn(4) == 0 {
 			name = g.fresh(append(append([]string{}, used...), src.cols...))
+			if g.rnd.Intn(3) == 0 && len(rest) > 0 {
+				// legal and nasty: an output named like a source column that is neither a by
+				// nor an on column
+				name = rest[g.rnd.Intn(len(rest))]
+				shadow = true
+			}
 			out = name
 		}
 		// output names must not clash with by, other outputs, or any on column
-		if contains(used, out) || contains(rest, out) || contains(q.Ons, out) {
+		if contains(used, out) || (!shadow && contains(rest, out)) || contains(q.Ons, out) || out == on {
 			continue
 		}
 		clash := false
@@ -1067,7 +1098,44 @@ func (g *Gen) gen(d int) *Q {
 		default:
 			r = g.makeSame(l, r)
 		}
+		if com := common(l.cols, r.cols); len(com) > 0 && g.rnd.Intn(4) == 0 {
+			// fixed values on a common column, on one or both sides
+			c := com[g.rnd.Intn(len(com))]
+			switch g.rnd.Intn(3) {
+			case 0:
+				l = g.fixOn(l, c)
+			case 1:
+				r = g.fixOn(r, c)
+			default:
+				l, r = g.fixOn(l, c), g.fixOn(r, c)
+			}
+		}
 		q = g.binary(op, l, r)
+		switch x := g.rnd.Intn(10); {
+		case x < 3:
+			// a where on columns of one side only (Transform pushes it into that side,
+			// or - leftjoin - must not)
+			var only []string
+			side := r
+			if g.rnd.Intn(3) == 0 {
+				side = l
+			}
+			other := l
+			if side == l {
+				other = r
+			}
+			for _, c := range side.cols {
+				if !contains(other.cols, c) && contains(q.cols, c) {
+					only = append(only, c)
+				}
+			}
+			if len(only) > 0 {
+				q = g.whereOn(q, only)
+			}
+		case x < 4 && len(q.cols) > 1:
+			// a project that keeps only some of the common (join) columns
+			q = g.project(q, g.subset(q.cols, 1, len(q.cols)-1))
+		}
 	}
 	if !g.noViews && g.rnd.Intn(12) == 0 && q.Op != "table" {
 		*g.nview++
